@@ -40,6 +40,9 @@ def check(ctx):
             sizes = range(0, L + 3)
         for b in sizes:
             lines.append("%s buf=%d" % (l, b))
+        if L <= 700:
+            for b in range(max(0, L - 2), L + 8):          # the same object with the Order bit set by the caller
+                lines.append("%s fcflags=128 buf=%d" % (l, b))
     ctx.coverage["exhaustive"] = True
     fw.run_suite(ctx, exe, "S-gen/dump-sizes", lines, "frame serialisation")
     # the same after short call sequences on every kind, into buffers around the interesting sizes
